@@ -1,5 +1,8 @@
 (** Judge for C17: the NNI neighbourhood is complete, minimal and reversible.
-    case:  ((tree T))
+    case:  ((tree T))      or  ((trees (T1 T2 ...)))  with obs ((runs (obs1 obs2 ...))): the
+                               trees are rearranged one after the other with the SAME
+                               NNIRearranger value, as cmd/nni.go does for a multi-tree input;
+                               every tree is judged on its own, exactly as a single tree
     obs :  ((err e) (n k) (orig T) (nw0 s)
             (props (((tree T_i) (audit (...)) (nw s_i)) ...))     -- inside the callback, after Apply
             (final T') (audit (...)) (nwf s'))                    -- after the whole enumeration
@@ -168,12 +171,13 @@ Definition correspondence (t : utree) (o : sexp) (ps : list prop_obs) : option s
     end
   end.
 
-Definition judge (c o : sexp) : verdict :=
+(** one tree against its observation *)
+Definition judge_one (t : utree) (o : sexp) : verdict :=
   match get "panic" o with
   | Some m => VOracle ("the implementation panicked: " ++ match m with Atom a => a | _ => "" end)
   | None =>
-    match get_tree "tree" c, get_string "err" o, (x <- get "props" o ;; dec_list dec_prop x) with
-    | Some t, Some gerr, Some ps =>
+    match get_string "err" o, (x <- get "props" o ;; dec_list dec_prop x) with
+    | Some gerr, Some ps =>
       let co := correspondence t o ps in
       let agree := match co with
                    | None => " [the model agrees with the implementation]"
@@ -187,6 +191,67 @@ Definition judge (c o : sexp) : verdict :=
              | None => VOk (negb (Nat.eqb (length ps) 0)) (if rooted t then "rooted" else "unrooted")
              end
            end
-    | _, _, _ => VBad "undecodable case or observation"
+    | _, _ => VBad "undecodable observation"
+    end
+  end.
+
+(** several trees given to the same rearranger value one after the other (the loop over the
+    input trees of cmd/nni.go): every tree is judged on its own, exactly as a single tree.
+    Reported: the first undecodable observation, else the first failure other than the
+    known root-branch message, else that message, else OK. *)
+Definition root_msg : string := "the inner branch through the degree-2 root ".
+Definition is_root_finding (v : verdict) : bool :=
+  match v with VOracle m => String.prefix root_msg m | _ => false end.
+Definition is_bad (v : verdict) : bool := match v with VBad _ => true | _ => false end.
+Definition is_fail (v : verdict) : bool :=
+  match v with VCorr _ | VOracle _ => negb (is_root_finding v) | _ => false end.
+Definition is_nontrivial (v : verdict) : bool := match v with VOk b _ => b | _ => false end.
+
+Definition label (i n : nat) (v : verdict) : verdict :=
+  let pre := "tree " ++ string_of_nat i ++ " of " ++ string_of_nat n ++ ": " in
+  match v with
+  | VCorr m => VCorr (pre ++ m)
+  | VBad m => VBad (pre ++ m)
+  | VOracle m => if is_root_finding v then VOracle (m ++ " (" ++ pre ++ "same rearranger value)") else VOracle (pre ++ m)
+  | VOk b tg => VOk b tg
+  end.
+
+Fixpoint judge_seq (i n : nat) (ts : list utree) (os : list sexp) : list verdict :=
+  match ts, os with
+  | t :: tr, o :: or => label i n (judge_one t o) :: judge_seq (S i) n tr or
+  | _, _ => []
+  end.
+
+Definition judge_multi (ts : list utree) (os : list sexp) : verdict :=
+  if negb (Nat.eqb (length ts) (length os)) then VBad "number of runs differs from the number of trees"
+  else
+    let vs := judge_seq 1 (length ts) ts os in
+    match find is_bad vs with
+    | Some v => v
+    | None =>
+      match find is_fail vs with
+      | Some v => v
+      | None =>
+        match find is_root_finding vs with
+        | Some v => v
+        | None => VOk (existsb is_nontrivial vs) "sequence"
+        end
+      end
+    end.
+
+Definition judge (c o : sexp) : verdict :=
+  match get "trees" c with
+  | Some x =>
+    match dec_list dec_utree x, (r <- get "runs" o ;; list_of r) with
+    | Some ts, Some os => judge_multi ts os
+    | _, _ => match get "panic" o with
+              | Some (Atom a) => VOracle ("the implementation panicked: " ++ a)
+              | _ => VBad "undecodable case or observation"
+              end
+    end
+  | None =>
+    match get_tree "tree" c with
+    | Some t => judge_one t o
+    | None => VBad "undecodable case or observation"
     end
   end.
